@@ -108,6 +108,122 @@ def gen_nb_triple(r):
     base = gen_notebook(r, r.choice([1, 2, 3, 4]))
     return base, edit_notebook(r, base), edit_notebook(r, base)
 
+# ---------------------------------------------------------------------------------------------- re-bundled decisions
+# Triples whose merge yields SEVERAL decisions with the same common_path that each carry a patch op on the SAME key.
+# add_decision pushes a lone patch op down into the path, so this shape only appears after a strategy re-bundles the
+# decisions of a container (bundle_decisions_by_index for /cells/*/outputs, push_patch_decision in record-conflict for
+# */metadata): one child of the container is in genuine conflict (both sides edit the same place differently, so the
+# strategy runs) while a sibling child is edited on both sides in DISJOINT sub-parts (two one-sided decisions that end
+# up side by side at the container's path).  apply_decisions / the renderers then have to combine ops that belong to
+# different entries of the decision list they were given.
+LONG = ['the quick brown fox jumps over the lazy dog', 'a value that is long enough to stay similar',
+        'lorem ipsum dolor sit amet consectetur', 'result of the computation follows here', '<div class="out">table body</div>',
+        'mean = 0.5123, std = 0.0123, n = 1000', 'second output that is long enough too']
+
+def _long_text(r, nlines):
+    return ''.join('%s %d\n' % (r.choice(LONG), i) for i in range(nlines))
+
+def _edit_line(text, i, tag):
+    lines = text.splitlines(True)
+    i = i % len(lines)
+    lines[i] = lines[i].rstrip('\n') + ' ' + tag + '\n'
+    return ''.join(lines)
+
+def _rich_output(r):
+    """an output with at least two independently editable parts"""
+    t = r.choice(['display_data', 'display_data', 'execute_result', 'stream'])
+    if t == 'stream':
+        return {'output_type': 'stream', 'name': r.choice(['stdout', 'stderr']), 'text': _long_text(r, r.choice([5, 6, 8]))}
+    mimes = ['text/plain'] + r.sample(['text/html', 'text/markdown'], r.choice([0, 1, 1, 2]))
+    items = [('output_type', t), ('data', {m: _long_text(r, r.choice([1, 2, 3])) for m in mimes}),
+             ('metadata', r.choice([{}, {}, {'isolated': True}, {'tags': ['x', 'y'], 'w': {'h': [3]}}]))]
+    if t == 'execute_result': items.append(('execution_count', r.choice([1, 2, None])))
+    return shuffled_dict(r, items)
+
+def _slots(o):
+    """independently editable parts of an output"""
+    if o['output_type'] == 'stream':
+        n = len(o['text'].splitlines())
+        return [('line', 0), ('line', n - 1)] + ([('line', n // 2)] if n >= 7 else [])
+    return [('md', None)] + [('mime', m) for m in sorted(o['data'])]
+
+def _apply_slot(r, o, slot, tag):
+    kind, which = slot
+    if kind == 'line': o['text'] = _edit_line(o['text'], which, tag)
+    elif kind == 'mime': o['data'][which] = _edit_line(o['data'][which], r.randrange(4), tag)
+    else: o['metadata'][r.choice(['tag', 'note', 'scrolled_by'])] = r.choice([tag, [tag], {'by': tag}])
+
+def _conflict(r, lo, ro):
+    """both sides edit the same place of one output differently"""
+    slot = r.choice([s for s in _slots(lo) if s[0] != 'md'] if r.random() < 0.8 else _slots(lo))
+    if slot[0] == 'md':
+        lo['metadata']['owner'] = 'LOCAL'; ro['metadata']['owner'] = 'REMOTE'
+    elif slot[0] == 'line':
+        lo['text'] = _edit_line(lo['text'], slot[1], 'LOCAL'); ro['text'] = _edit_line(ro['text'], slot[1], 'REMOTE')
+    else:
+        lo['data'][slot[1]] = _edit_line(lo['data'][slot[1]], 0, 'LOCAL'); ro['data'][slot[1]] = _edit_line(ro['data'][slot[1]], 0, 'REMOTE')
+
+def _disjoint(r, lo, ro):
+    """local and remote edit different parts of one output (no conflict, two one-sided decisions)"""
+    sl = _slots(lo); r.shuffle(sl)
+    k = r.choice([1, 1, 2]) if len(sl) >= 3 else 1
+    for s in sl[:k]: _apply_slot(r, lo, s, 'L')
+    for s in sl[k:k + r.choice([1, 1, 2])]: _apply_slot(r, ro, s, 'R')
+
+def _bundled_meta(r):
+    """(base, local, remote) metadata dicts: key 'owner' conflicts, the dict under 'grp' is edited on both sides in disjoint keys"""
+    grp = {'x': 1, 'y': [1, 2], 'z': {'q': 'v'}, 'w': 'keep'}
+    base = shuffled_dict(r, [('grp', grp), ('owner', 'nobody'), ('other', {'k': [1]})])
+    l, rr = copy.deepcopy(base), copy.deepcopy(base)
+    l['owner'] = 'LOCAL'; rr['owner'] = 'REMOTE'
+    ks = ['x', 'y', 'z']; r.shuffle(ks)
+    edits = {'x': lambda g, t: g.__setitem__('x', t), 'y': lambda g, t: g['y'].append(t), 'z': lambda g, t: g['z'].__setitem__('by', t)}
+    edits[ks[0]](l['grp'], 'L'); edits[ks[1]](rr['grp'], 'R')
+    if r.random() < 0.4: edits[ks[2]](r.choice([l, rr])['grp'], 'LR')
+    if r.random() < 0.3: l['grp']['new_l'] = ['L']
+    if r.random() < 0.3: rr['grp']['new_r'] = {'R': 1}
+    return base, l, rr
+
+def gen_nb_triple_bundled(r):
+    """(base, local, remote, shape): see the comment above.  shape in 'outputs' | 'cellmeta' | 'nbmeta'"""
+    shape = r.choice(['outputs', 'outputs', 'outputs', 'cellmeta', 'nbmeta'])
+    minor = r.choice([4, 5, 5])
+    ncells = r.choice([1, 1, 2, 3])
+    cells = [gen_cell(r, i, minor) for i in range(ncells)]
+    ti = r.randrange(ncells)
+    tc = {'cell_type': 'code', 'metadata': {}, 'source': r.choice(['print(1)', 'display(x)\nx\n', '']), 'execution_count': r.choice([None, 1, 3]), 'outputs': []}
+    if minor >= 5: tc['id'] = 'cell-t-%d' % r.randrange(1000)
+    cells[ti] = tc
+    base = {'nbformat': 4, 'nbformat_minor': minor, 'metadata': {}, 'cells': cells}
+    if shape == 'outputs':
+        n = r.choice([2, 2, 3, 4])
+        tc['outputs'] = [_rich_output(r) for _ in range(n)]
+        local, remote = copy.deepcopy(base), copy.deepcopy(base)
+        lo, ro = local['cells'][ti]['outputs'], remote['cells'][ti]['outputs']
+        idx = list(range(n)); r.shuffle(idx)
+        _conflict(r, lo[idx[0]], ro[idx[0]])
+        _disjoint(r, lo[idx[1]], ro[idx[1]])
+        for j in idx[2:]:
+            c = r.random()
+            if c < 0.35: _disjoint(r, lo[j], ro[j])
+            elif c < 0.5: _conflict(r, lo[j], ro[j])
+            elif c < 0.7: _apply_slot(r, r.choice([lo, ro])[j], r.choice(_slots(lo[j])), 'ONE')
+        if r.random() < 0.25:      # an unrelated change elsewhere in the notebook
+            local['cells'][ti]['source'] += '# local\n'
+    else:
+        if r.random() < 0.5: tc['outputs'] = [_rich_output(r)]
+        bm, lm, rm = _bundled_meta(r)
+        local, remote = copy.deepcopy(base), copy.deepcopy(base)
+        if shape == 'cellmeta':
+            base['cells'][ti]['metadata'], local['cells'][ti]['metadata'], remote['cells'][ti]['metadata'] = bm, lm, rm
+        else:
+            base['metadata'], local['metadata'], remote['metadata'] = bm, lm, rm
+    return base, local, remote, shape
+
+# merge arguments under which a conflict in a container makes a strategy re-bundle the container's decisions
+BUNDLING_ARGS = [None, {'merge_strategy': 'inline'}, {'merge_strategy': 'inline', 'output_strategy': 'remove'},
+                 {'merge_strategy': 'inline', 'ignore_transients': False}, {'merge_strategy': 'use-base', 'output_strategy': 'inline'}]
+
 def gen_json_triple(r, depth=3):
     base = genjson.gen_container(r, kind=r.choice(['list', 'dict']), depth=depth)
     return base, genjson.mutate(r, base, depth), genjson.mutate(r, base, depth)
